@@ -142,10 +142,15 @@ class Formatter(FormatterInterface):
         lhs = self(oper.lhs)
         rhs = self(oper.rhs)
 
+        # Python chains comparisons ('a < b == c' means 'a < b and b == c'),
+        # so a comparison operand of a comparison always needs parentheses
+        comparisons = (L.EQ, L.NE, L.LT, L.GT, L.LE, L.GE)
+        chain = isinstance(oper, comparisons)
+
         # Apply parentheses
-        if oper.lhs.precedence >= oper.precedence:
+        if oper.lhs.precedence >= oper.precedence or (chain and isinstance(oper.lhs, comparisons)):
             lhs = f"({lhs})"
-        if oper.rhs.precedence >= oper.precedence:
+        if oper.rhs.precedence >= oper.precedence or (chain and isinstance(oper.rhs, comparisons)):
             rhs = f"({rhs})"
 
         # Return combined string
